@@ -43,10 +43,12 @@ type scenario struct {
 	Sources   string   `json:"sources"` // normal | foreign-ns | cluster-kind
 	Edits     int      `json:"edits"`
 	Restarts  int      `json:"restarts"`
+	Faults    int      `json:"faults"`
+	Conflicts int      `json:"conflicts"`
 }
 
 func (sc scenario) name() string {
-	return fmt.Sprintf("template cluster=%v templates=%v sources=%s edits=%d restarts=%d", sc.Cluster, sc.Templates, sc.Sources, sc.Edits, sc.Restarts)
+	return fmt.Sprintf("template cluster=%v templates=%v sources=%s edits=%d restarts=%d faults=%d conflicts=%d", sc.Cluster, sc.Templates, sc.Sources, sc.Edits, sc.Restarts, sc.Faults, sc.Conflicts)
 }
 
 func (sc scenario) tKey() kmodel.Key {
@@ -198,9 +200,12 @@ func check(sc scenario) func(before *world.World, ev world.Event, pass *world.Pa
 		if tmpl == "missingkey" || (sc.Cluster && (tmpl == "foreignns" || tmpl == "clusterkind" || tmpl == "clusterkindns")) {
 			return out // rendering error / cluster template variants: statement silent, not judged
 		}
+		disturbed := strings.HasPrefix(ev.Name, "fault:") || strings.HasPrefix(ev.Name, "conflict:")
+		if pass.Err != nil && disturbed {
+			return out // an injected fault may fail the pass; the next undisturbed pass is judged in full
+		}
 		if pass.Err != nil {
-			// no faults are injected in these systems: a failing pass on valid input means the target
-			// is not produced
+			// undisturbed pass: a failing pass on valid input means the target is not produced
 			bad("valid-template-pass-failed", "valid template and sources but the pass failed: %v", pass.Err)
 			return out
 		}
@@ -278,6 +283,8 @@ func system(sc scenario) *world.System {
 			}
 			w.Budget["edit"] = sc.Edits
 			w.Budget["restart"] = sc.Restarts
+			w.Budget["fault"] = sc.Faults
+			w.Budget["conflict"] = sc.Conflicts
 			w.Budget["delete"] = 1
 			return w
 		},
@@ -291,6 +298,10 @@ func system(sc scenario) *world.System {
 					nn.Namespace = ""
 				}
 				evs = append(evs, world.Event{Name: "reconcile:template:t", Apply: func(w *world.World) *world.Pass { return w.Reconcile(sc.ctrl(), nn, nil) }})
+				if !sc.Cluster {
+					evs = append(evs, osw.FaultEvents(w, sc.ctrl(), "t", []world.FaultKind{world.ErrBefore, world.LostResponse, world.Crash})...)
+					evs = append(evs, osw.ConflictEvents(w, sc.ctrl(), "t")...)
+				}
 			}
 			if w.Budget["edit"] > 0 {
 				tp := func(name string, f func(w *world.World)) {
@@ -366,11 +377,13 @@ func scenarios(quick bool) []scenario {
 		{Templates: []string{"ok"}, Sources: "foreign-ns", Edits: 2},
 		{Templates: []string{"ok"}, Sources: "cluster-kind", Edits: 2},
 		{Cluster: true, Templates: []string{"okns", "noparse"}, Sources: "normal", Edits: 3},
+		{Templates: []string{"ok"}, Sources: "normal", Edits: 2, Faults: 1, Conflicts: 1},
 	}
 	if !quick {
 		out = append(out,
 			scenario{Templates: []string{"ok", "noparse", "foreignns", "clusterkind"}, Sources: "normal", Edits: 5, Restarts: 1},
 			scenario{Cluster: true, Templates: []string{"okns", "clusterkind"}, Sources: "cluster-kind", Edits: 4, Restarts: 1},
+			scenario{Templates: []string{"ok", "noparse"}, Sources: "normal", Edits: 3, Faults: 2, Conflicts: 1, Restarts: 1},
 		)
 	}
 	return out
@@ -378,7 +391,7 @@ func scenarios(quick bool) []scenario {
 
 func run(o checks.Opts) *report.Report {
 	rep := report.New("C18", "bfs")
-	rep.Rule = "explicit-state BFS: ObjectTemplate t (and a ClusterObjectTemplate variant) with a required source s1 (.data.x) and an optional source s2 (.data.y), template text from {renders both values, missing key, does not parse, foreign namespace, cluster-scoped kind}; events = create / edit / delete each source, switch template, reconcile, delete the template, operator restart (dynamic cache lost), garbage collector, with an edit budget; source variants: in namespace, in another namespace, cluster-scoped kind; monitor on every ObjectTemplate pass incl. the real EnqueueWatchingObjects handler over the cache's owner sets"
+	rep.Rule = "explicit-state BFS: ObjectTemplate t (and a ClusterObjectTemplate variant) with a required source s1 (.data.x) and an optional source s2 (.data.y), template text from {renders both values, missing key, does not parse, foreign namespace, cluster-scoped kind}; events = create / edit / delete each source, switch template, reconcile, delete the template, operator restart (dynamic cache lost), garbage collector, every fault kind at every API call of a template pass and a foreign write landing before each of its writes (budgeted), with an edit budget; source values 1 / 2 / empty, the template has a conditional key and a list that shrinks; source variants: in namespace, in another namespace, cluster-scoped kind; monitor on every ObjectTemplate pass incl. the real EnqueueWatchingObjects handler over the cache's owner sets"
 	scs := scenarios(o.Quick())
 	rep.Bounds["systems"] = len(scs)
 	for i, sc := range scs {
@@ -411,9 +424,9 @@ func init() {
 		},
 		Subs: []*checks.Sub{{Name: "bfs", Shards: func(t string) int {
 			if t == "thorough" {
-				return 6
+				return 8
 			}
-			return 4
+			return 6
 		}, Run: run, Replay: replay, Parallel: true}},
 	})
 }
